@@ -1391,6 +1391,23 @@ func (vm *VM) Reset() {
 	vm.halted = false
 }
 
+// builtinNames is the set of function names the VM can call (see registerBuiltins).
+var builtinNames = func() map[string]bool {
+	probe := NewVM()
+	names := make(map[string]bool, len(probe.builtins))
+	for name := range probe.builtins {
+		names[name] = true
+	}
+	return names
+}()
+
+// HasBuiltin reports whether the VM provides a built-in function of that name.
+// A call instruction resolves its callee among these names only: the VM runs no
+// user-defined functions and has a subset of the interpreter's built-ins.
+func HasBuiltin(name string) bool {
+	return builtinNames[name]
+}
+
 // registerBuiltins registers all built-in functions
 func (vm *VM) registerBuiltins() {
 	// time.now() - returns current Unix timestamp
